@@ -8,8 +8,11 @@
 """
 import json, os, re, shutil, subprocess, sys, tempfile
 
-pid = sys.argv[1]
-name = sys.argv[2] if len(sys.argv) > 2 else pid
+args = [a for a in sys.argv[1:] if not a.startswith('--')]
+SCRATCH = '--scratch' in sys.argv      # run the checks on the scratch worktree (VERIF_REPO) instead of patching /repo
+NO_TESTS = '--no-tests' in sys.argv
+pid = args[0]
+name = args[1] if len(args) > 1 else pid
 src = f'/tmp/wt_{pid}_out'
 dst = f'/verif/seeded/{name}'
 os.makedirs(dst, exist_ok=True)
@@ -46,9 +49,24 @@ try:
     r1 = sh(['/venv/bin/python', demo], env=env, cwd=wt)
     res['demo_with_change_exit'] = r1.returncode
     res['demo_output_with_change'] = (r1.stdout + r1.stderr)[-1500:]
-    rt = sh(f'cd {wt} && /venv/bin/python -m pytest -q -p no:cacheprovider -n 8 -x 2>&1 | tail -3')
-    res['test_suite_tail'] = rt.stdout.strip().splitlines()[-1] if rt.stdout.strip() else ''
-    res['tests_pass_with_change'] = bool(re.search(r'\b1699 passed', rt.stdout)) and 'failed' not in rt.stdout
+    if NO_TESTS and os.path.exists(os.path.join(dst, 'meta.json')):
+        old = json.load(open(os.path.join(dst, 'meta.json'))).get('verification', {})
+        res['test_suite_tail'] = old.get('test_suite_tail', '')
+        res['tests_pass_with_change'] = old.get('tests_pass_with_change', False)
+    else:
+        rt = sh(f'cd {wt} && /venv/bin/python -m pytest -q -p no:cacheprovider -n 8 -x 2>&1 | tail -3')
+        res['test_suite_tail'] = rt.stdout.strip().splitlines()[-1] if rt.stdout.strip() else ''
+        res['tests_pass_with_change'] = bool(re.search(r'\b1699 passed', rt.stdout)) and 'failed' not in rt.stdout
+    scratch_checks = {}
+    if SCRATCH:
+        ev = tempfile.mkdtemp(prefix='ev_', dir='/tmp')
+        manifest = json.load(open('/verif/MANIFEST.json'))
+        for c in manifest['checks']:
+            r = sh(c['quick_cmd'], cwd='/verif', env=dict(os.environ, VERIF_EVIDENCE_DIR=ev, VERIF_REPO=wt))
+            rules = sorted(set(re.findall(r'^  rule      : ([A-Z0-9-]+)', r.stdout, re.M)))
+            scratch_checks[c['property_id']] = {'exit': r.returncode, 'rules': rules,
+                                                'constructs': re.findall(r'^  construct : (.*)$', r.stdout, re.M)[:4]}
+        shutil.rmtree(ev, ignore_errors=True)
 finally:
     sh(f'git -C /repo worktree remove --force {wt}')
 res['confirmed'] = bool(res.get('patch_applies') and res.get('demo_without_change_exit') == 0 and res.get('demo_with_change_exit') == 1
@@ -56,11 +74,15 @@ res['confirmed'] = bool(res.get('patch_applies') and res.get('demo_without_chang
 
 # run the checks against /repo with the patch applied
 checks = {}
-st = sh('git -C /repo status --porcelain')
-assert not st.stdout.strip(), '/repo is not clean'
-ra = sh(f'git -C /repo apply --whitespace=nowarn {patch}')
+if SCRATCH:
+    checks = scratch_checks
+    ra = None
+else:
+    st = sh('git -C /repo status --porcelain')
+    assert not st.stdout.strip(), '/repo is not clean'
+    ra = sh(f'git -C /repo apply --whitespace=nowarn {patch}')
 try:
-    if ra.returncode == 0:
+    if ra is not None and ra.returncode == 0:
         ev = tempfile.mkdtemp(prefix='ev_', dir='/tmp')
         manifest = json.load(open('/verif/MANIFEST.json'))
         for c in manifest['checks']:
@@ -70,7 +92,9 @@ try:
                                         'constructs': re.findall(r'^  construct : (.*)$', r.stdout, re.M)[:4]}
         shutil.rmtree(ev, ignore_errors=True)
 finally:
-    sh('git -C /repo checkout -- .')
+    if not SCRATCH:
+        sh('git -C /repo checkout -- .')
+res['checks_run_on'] = 'scratch worktree (VERIF_REPO)' if SCRATCH else '/repo with the patch applied (git apply), undone afterwards'
 res['checks_firing'] = {k: v for k, v in checks.items() if v['exit'] == 1}
 res['checks_error'] = {k: v for k, v in checks.items() if v['exit'] not in (0, 1)}
 res['detected'] = bool(res['checks_firing'])
